@@ -127,7 +127,7 @@ PROPS = {
                     "what": "every listed license id is accepted as a one-term expression, every exception id after WITH and nowhere else: exhaustive execution of the real ValidateLicenses over the finite shipped tables (one configuration: the current tree)"},
         "generator": True,
         "explanation": "Ground evaluation: the three generated lists equal, in order, the ids derived from cmd/licenses.json and cmd/exceptions.json by the property's rule; they are pairwise disjoint, fold-unique and made of id characters (decided by evaluation on the literals of the current tree on every run). Bounded stand-in, labelled bounded and not counted as proved: the real generator (cmd) is run on the shipped JSON in a scratch copy outside /repo and its output compared byte for byte with the committed files; acceptance of every id is checked by exhaustive execution over the finite tables. The generator code itself (os, encoding/json, file I/O) is outside the verifier's reach.",
-        "assumptions": ["encoding/json decodes the JSON files faithfully", "one configuration only: the JSON files and tables of the current tree"],
+        "assumptions": ["encoding/json decodes the JSON files faithfully", "the table postconditions are decided for one configuration (the JSON files and tables of the current tree); 'any future refresh or hand edit' of the JSON is covered only by a BOUNDED family of derived configurations on which the real generator is run and compared with the property's rule"],
     },
     "C13": {
         "level": "proof", "prove": True, "ground": [],
